@@ -207,7 +207,7 @@ fn pool(ty: Ty) -> Vec<Raw> {
         .map(|x| Raw::F(*x))
         .collect(),
         Ty::Utf8 | Ty::LargeUtf8 | Ty::Utf8View => {
-            ["", "A", "a", "a%", "a_", "aa", "ab", "abc", "ab\u{10FFFF}", "ab\u{10FFFF}c", "b", "ba", "z", "é", "éa", "\u{10FFFF}", "\u{10FFFF}\u{10FFFF}", "a\\", "B"]
+            ["", "A", "a", "a%", "a_", "aa", "ab", "abc", "ab\u{10FFFF}", "ab\u{10FFFF}c", "b", "ba", "z", "é", "éa", "\u{10FFFF}", "\u{10FFFF}\u{10FFFF}", "a\\", "B", "aab", "ac", "acb", "abd"]
                 .iter()
                 .map(|s| Raw::S(s.to_string()))
                 .collect()
@@ -1124,6 +1124,8 @@ impl Property for C22 {
 ///   is not monotone (-1 -> true, 0 -> false, 1 -> true).
 /// * `cast-decimal-to-int`: `CAST(decimal_col AS INT) op lit` is "unwrapped" by the simplifier that try_build
 ///   runs on the rewritten predicate into `decimal_col op lit.00` although the cast truncates (-1.50 -> -1).
+/// * `try-cast-is-not-distinct-from-null`: `TRY_CAST(col AS T) IS NOT DISTINCT FROM NULL` is rewritten to
+///   `col_null_count > 0`, but TRY_CAST also yields NULL for values that do not fit T.
 /// * `neg-of-int-min`: the predicate negates an integer column (`-c`) and some row holds that type's MIN
 ///   (NegativeExpr wraps at row level, the pruning rewrite `-c op lit -> c op' -lit` assumes it does not).
 fn known_sig(case: &Case) -> Option<String> {
@@ -1140,6 +1142,21 @@ fn known_sig(case: &Case) -> Option<String> {
     }
     if case.cols.is_empty() || case.cols.len() > 3 {
         return None;
+    }
+    fn tcn(p: &P, cols: &[Ty]) -> bool {
+        match p {
+            P::Cmp { op, t: T::Cast { c, try_cast: true, .. }, lit, .. } => {
+                let mut rs = Resolver { cols, labels: vec![], used_cols: vec![] };
+                let (_, ty) = rs.col(*c);
+                lit.null && CMP_OPS[pick_index((*op as u16) << 8, CMP_OPS.len())] == Operator::IsNotDistinctFrom && !ty.cast_targets().is_empty()
+            }
+            P::Not(a) => tcn(a, cols),
+            P::And(a, b) | P::Or(a, b) => tcn(a, cols) || tcn(b, cols),
+            _ => false,
+        }
+    }
+    if tcn(&case.pred, &case.cols) {
+        return Some("try-cast-is-not-distinct-from-null".into());
     }
     let mut ts = vec![];
     terms(&case.pred, &mut ts);
@@ -1233,6 +1250,7 @@ fn run_case(case: &Case) -> CaseResult {
         Ok(p) => p,
         Err(e) => return CaseResult::discard(format!("create_physical_expr: {}", truncate(&e.to_string(), 80))).labels(labels),
     };
+    let phys_orig = phys.clone();
     if case.simplify {
         phys = match PhysicalExprSimplifier::new(&schema).simplify(phys) {
             Ok(p) => p,
@@ -1326,11 +1344,18 @@ fn run_case(case: &Case) -> CaseResult {
     if any_row_error {
         labels.push("row-eval-error".into());
     }
-    // cross-check with the reference evaluator
+    // cross-check with the reference evaluator (against the engine's evaluation of the un-simplified
+    // expression; a simplifier that changes row-level truth is C04's subject, it is only labelled here and
+    // the predicate handed to the pruner — the simplified one — stays the reference for C22)
+    let truth_orig: Vec<Vec<Option<bool>>> =
+        if case.simplify { (0..n).map(|k| true_rows(&phys_orig, &schema, &tys, &rows[k]).0).collect() } else { truth.clone() };
+    if case.simplify && (0..n).any(|k| truth[k].iter().zip(&truth_orig[k]).any(|(a, b)| a.is_some() && b.is_some() && a != b)) {
+        labels.push("simplifier-changed-row-truth".into());
+    }
     let mut ref_used = false;
     for k in 0..n {
         for (ri, row) in rows[k].iter().enumerate() {
-            if let (Ok(r), Some(t)) = (ref_pred(&rp, row), truth[k][ri]) {
+            if let (Ok(r), Some(t)) = (ref_pred(&rp, row), truth_orig[k][ri]) {
                 ref_used = true;
                 if (r == Some(true)) != t {
                     return CaseResult::inconclusive(format!("reference evaluator disagrees with the engine on a row: ref={r:?} engine_true={t}"))
